@@ -71,7 +71,7 @@ class TwoRateTokenBucket(Device):
             )
 
             if self.pir:
-                assert self.pbs
+                assert self.pbs is not None
                 self.current_bucket_peak = min(
                     self.pbs,
                     self.current_bucket_peak
@@ -80,7 +80,7 @@ class TwoRateTokenBucket(Device):
             self.update_time = now
 
             if self.pir:
-                assert self.current_bucket_peak
+                assert self.current_bucket_peak is not None
                 if packet.size > self.current_bucket_peak:
                     yield env.timeout(
                         (packet.size - self.current_bucket_peak) * 8.0 / self.pir
